@@ -321,7 +321,33 @@ def run(res: Result, tier: str, seed: int):
                 "and the routing rule; real vs model on OUT/APP")
     sc = scenarios(rng, tier)
     res.extra["typed_request_classes"] = len(typed_request_classes())
-    return nodecheck.run(res, sc, KEEP, oracle)
+    fails, div = nodecheck.run(res, sc, KEEP, oracle)
+    fails = fails + racing_validation(res)
+    return fails, div
+
+
+def racing_validation(res: Result) -> list:
+    """the reader threads of two connections inside `validate_message_avps` at the same time (harness/valrace.py, fresh
+    interpreter): under every single-preemption schedule each call reports what it reports alone"""
+    import json
+    import os
+    import subprocess
+    import sys
+    from common import REPO_SRC
+    here = os.path.dirname(os.path.abspath(__file__))
+    env = dict(os.environ, TZ="UTC", DV_REPO_SRC=REPO_SRC)
+    try:
+        p = subprocess.run([sys.executable, os.path.join(here, "valrace.py")], env=env, capture_output=True, text=True, timeout=600)
+        doc = json.loads(p.stdout.strip().splitlines()[-1])
+    except Exception as e:  # noqa
+        return [{"what": "validate_message_avps could not be run by two threads under a line-level schedule "
+                         f"({type(e).__name__}: {str(e)[:200]})", "kind": "race", "line": "valrace.py"}]
+    res.count("racing validations (single-preemption schedules, real threads)", doc["schedules"])
+    res.cases += doc["schedules"]
+    res.extra["racing_validation_schedules"] = doc["schedules"]
+    res.rule += ("; two reader threads inside validate_message_avps for requests of one command under every single-preemption "
+                 "schedule from fresh module state: each reports what it reports alone")
+    return doc["fails"]
 
 
 def signature(f: dict):
